@@ -737,15 +737,16 @@ def splitter_model(run, prop):
     run.extra["splitter_model_bounds"] = dict(max_lines=ml, max_line_length=mlen, alphabet=["x", ";", " "])
 
 
-def sharded(run, driver, prop, ncases, spec, cfg, extra_args=(), tag="rnd", timeout=1800, shards=None):
+def sharded(run, driver, prop, ncases, spec, cfg, extra_args=(), tag="rnd", timeout=1800, shards=None, per_shard_args=None):
     shards = shards or vk.NCPU
     per = math.ceil(ncases / shards)
 
     def job(i):
         def f():
             path = os.path.join(run.work, "%s-%s-%d.ndjson" % (tag, prop, i))
+            more = per_shard_args(i, shards) if per_shard_args else []
             s = vk.run_driver(run, [driver, "--seed", str(run.seed), "--from", str(i * per), "--to", str(min(ncases, (i + 1) * per)),
-                                    "--out", path] + list(extra_args), path, timeout=timeout)
+                                    "--out", path] + list(extra_args) + more, path, timeout=timeout)
             r = vk.validate_trace(run, path, spec, cfg)
             r["summary"] = s
             return r
@@ -834,7 +835,8 @@ def readers_family(run, replay):
     models.replay_cases(run, "C02", cases_path, n, "nw-replay", "TraceNewick.tla", NEWICK_TRACE_CFG % '"C02"', per_shard=400)
     splitter_model(run, "C02")
     ncases = 4800 if run.tier == "quick" else 160000
-    res = sharded(run, "readers", "C02", ncases, "TraceDocs.tla", cfg, timeout=3000)
+    res = sharded(run, "readers", "C02", ncases, "TraceDocs.tla", cfg, timeout=3000,
+                  per_shard_args=lambda i, n: ["--sweep", "--sweepmod", str(n), "--sweepidx", str(i)])
     oc = {}
     for r in res:
         for k, v in r["summary"].get("outcomes", {}).items():
@@ -847,8 +849,10 @@ def readers_family(run, replay):
                           "readers; real code: valid documents of the five formats (Newick, Newick stream, Nexus with TAXA/CHARACTERS/TREES/"
                           "TRANSLATE/unknown blocks, PhyloXML, Nextstrain JSON) mutated (truncation, splices of format keywords and "
                           "metacharacters, deletions, duplications, byte flips, blank-only lines, nesting up to 40000) and read through "
-                          "ReadMultiTrees and ReadTreeReader in an isolated worker process with a watchdog; every delivered tree is "
-                          "traversed, indexed and written; TLC flags crash, hang, unusable delivered tree",
+                          "ReadMultiTrees and ReadTreeReader in an isolated worker process with a watchdog, plus a systematic sweep of the "
+                          "small valid documents (every truncation; at every '=', bracket, separator and line end the variants that remove "
+                          "the value / the closing bracket / the separator, double it, or insert a blank-only line); every delivered tree "
+                          "is traversed, indexed and written; TLC flags crash, hang, unusable delivered tree",
                      assumptions=["a crash or a hang is re-run alone before being believed", "encoding/xml and encoding/json are not modelled: "
                                   "for PhyloXML and Nextstrain only crash/hang/usability are judged",
                                   "after 4 crashes or hangs in a shard the remaining inputs of that shard are not run"])
